@@ -52,6 +52,9 @@ claimed = {
  "C09": ("SSA rules: single construction site of call nodes dominated by the call-edge record, current-function key set/reset around bodies, predicate of the unused-function filter, redundancy rule for membership tests of an element in the list it is ranged from (Engler-style contradiction), first-character class of the computed namespace prefix, Public() guards",
          "Structural necessary conditions of linking and dead-function removal. Run-time behaviour of diamonds/repeated aliases is not decided.",
          "go/ssa; shapes of the call-graph map and the filter closure.", "§3 C09"),
+ "C04": ("typestate-style protocol check of the driver: per handler the event language of its success paths (eval/stmt/block of child accessors, Converter calls) is enumerated on the SSA CFG with error exits cut, loops unrolled and nil/emptiness/phi facts tracked for feasibility, and matched against a regular specification per node kind; duplicate-slot rule over the parser's node literals; returned-template rule over both converters; dispatcher exhaustiveness",
+         "Necessary structural conditions of evaluation order, multiplicity and eagerness for every node kind. What the effects print at run time is not decided.",
+         "Trusts the per-node specification table (oracle: Go operand order, README caveat, Converter bracket contract).", "§3 C04"),
 }
 na_reason = {
  "C15": "value-level agreement of a TypeShell library executed by a shell with Go's strings package over all arguments; no clause of it is visible in the shape of the Go sources or of std/strings.tsh; static analysis (this task's technique family) cannot address it",
